@@ -79,6 +79,7 @@ ENUM_NODES = {
     "a": {"group": "g"},
     "b": {"group": "g h"},
     "c": {"group": "h", "attrs": {"x": {}}},     # non-generatable
+    "d": {"group": "hg"},                          # a group whose name contains the names of the groups g and h
     "text": {"group": "inline"},
     "i": {"inline": True, "group": "inline"},
 }
